@@ -1838,7 +1838,7 @@ def replace_for_loops_with_set_list_comp(source: str) -> str:
     assign_template = ast.Assign(
         value=core.Wildcard("value", object), targets=[ast.Name(id=core.Wildcard("target", str))]
     )
-    for_template = ast.For(body=[object])
+    for_template = ast.For(body=[object], orelse=[])
     if_template = ast.If(body=[object], orelse=[])
 
     set_init_template = ast.Call(func=ast.Name(id="set"), args=[], keywords=[])
